@@ -4,3 +4,30 @@ mod multinomial;
 pub mod vanilla;
 
 pub use data::RegretParams;
+
+/// Call the private categorical sampler with a fixed uniform variate (verification hook)
+#[cfg(cfr_verif)]
+pub fn verif_multinomial(probs: &[f64], u: f64) -> usize {
+    use rand_distr::Distribution;
+    struct Fixed(u64);
+    impl rand::RngCore for Fixed {
+        fn next_u32(&mut self) -> u32 {
+            (self.0 >> 32) as u32
+        }
+        fn next_u64(&mut self) -> u64 {
+            self.0
+        }
+        fn fill_bytes(&mut self, dest: &mut [u8]) {
+            rand::RngCore::try_fill_bytes(self, dest).unwrap()
+        }
+        fn try_fill_bytes(&mut self, dest: &mut [u8]) -> Result<(), rand::Error> {
+            for (d, s) in dest.iter_mut().zip(self.0.to_le_bytes().iter().cycle()) {
+                *d = *s;
+            }
+            Ok(())
+        }
+    }
+    // `gen::<f64>()` keeps the top 53 bits of one `next_u64` and scales by 2^-53
+    let bits = ((u * (1u64 << 53) as f64) as u64) << 11;
+    multinomial::Multinomial::new(probs).sample(&mut Fixed(bits))
+}
